@@ -37,7 +37,7 @@ type Case struct {
 	Nest      int            `json:"nest,omitempty"` // MultiRowGroup: 0 flat, 1 Multi(Multi(head), tail...), 2 Multi(first, Multi(rest)), 3 Multi(Multi(a), Multi(b))
 }
 
-var kinds = []string{"rowgroup.Rows", "rowgroup.Rows", "Reader", "Pages", "Pages", "MultiRowGroup", "Buffer"}
+var kinds = []string{"rowgroup.Rows", "rowgroup.Rows", "Reader", "Pages", "Pages", "MultiRowGroup", "Buffer", "Column.Pages"}
 
 func genCase(t *rapid.T) Case {
 	var c Case
@@ -51,7 +51,7 @@ func genCase(t *rapid.T) Case {
 	c.Kind = kinds[rapid.IntRange(0, len(kinds)-1).Draw(t, "kind")]
 	c.Col = rapid.IntRange(0, len(cols)-1).Draw(t, "col")
 	c.Nest = rapid.IntRange(0, 3).Draw(t, "nest")
-	if c.Kind == "MultiRowGroup" && c.Opts.MaxRows == 0 {
+	if (c.Kind == "MultiRowGroup" || c.Kind == "Column.Pages") && c.Opts.MaxRows == 0 {
 		c.Opts.MaxRows = int64([]int{7, 20, 64}[rapid.IntRange(0, 2).Draw(t, "mmr")])
 	}
 	c.SkipIndex = rapid.IntRange(0, 3).Draw(t, "skipindex") == 0
@@ -204,6 +204,26 @@ func runCase(c Case, o *kit.Obs) *kit.Failure {
 		base := int64(0)
 		for _, g := range f.RowGroups() {
 			pageStarts(g, base)
+			base += g.NumRows()
+		}
+	case "Column.Pages":
+		// the pages of one leaf column of the file, across all its row groups
+		col := f.Root()
+		for _, name := range cols[c.Col].Path {
+			if col = col.Column(name); col == nil {
+				return kit.Failf("harness/column", "column %v not found under the file root", cols[c.Col].Path)
+			}
+		}
+		pages = col.Pages()
+		defer pages.Close()
+		base := int64(0)
+		for _, g := range f.RowGroups() {
+			if oi, err := g.ColumnChunks()[c.Col].OffsetIndex(); err == nil && oi != nil {
+				for p := 0; p < oi.NumPages(); p++ {
+					firstRows = append(firstRows, base+oi.FirstRowIndex(p))
+				}
+				maxPages = max(maxPages, oi.NumPages())
+			}
 			base += g.NumRows()
 		}
 	default: // one row group: the last one (so its model slice does not start at 0 when there are several)
